@@ -2,10 +2,34 @@ from checks import rapid, plain, fuzz, REPLAY
 
 CHECK = dict(
     pkg="c11", level="exploration",
-    rule="placeholder",
-    jobs=[REPLAY, rapid("prop", "TestVerifProp", 48000, 4000000, sq=16, st=16)],
-    technique="placeholder",
-    level_text="placeholder",
-    level_note="placeholder",
-    assumptions=[],
+    rule="topology of 2-3 configured registries with unique credentials (+ an optional configured-but-unused one): upstream with 0-2 mirrors (with/without the content, "
+         "priorities), copy partners, Docker Hub names, name != hostname; third hosts: blob redirect target (storage host, another registry, the registry itself with "
+         "the same or another scheme; 301/302/303/307/308), external layer URL host, upload Location host (hand-over to a backend, or absolute Location with a server "
+         "chosen scheme), tag-list Link host, token endpoint on the registry / a separate host / another registry; per host an auth spec (open, Basic, Bearer with "
+         "GET and POST flows, refresh tokens, anonymous tokens, scope check, several challenges in one or two headers, unsupported schemes, malformed challenges, "
+         "a challenge that changes at a request ordinal) and 401 answers at generated request ordinals on ANY host (incl. challenges that name a registry's own "
+         "token endpoint); client configuration through config.Host (tls enabled/insecure/disabled, repoAuth, mirrors) or a generated docker config file (every "
+         "accepted key spelling, auth/username+password/identitytoken forms, rejected host/repo keys with decoy credentials); 1-9 operations (manifest "
+         "get/head/put/delete, blob get/head/put/mount/delete, tag list, referrers, image copy, ping, catalog), chunked uploads, paged lists; log through slog "
+         "text/JSON handlers or the logrus bridge at trace level. Oracle = taint scan of every request any model host received + scan of the captured log. "
+         "Non-trivial = >=2 hosts with configured credentials and >=1 cross-host edge (mirror, copy, redirect, external URL, upload host, Link host, separate token "
+         "endpoint) whose target received >=1 request; distinct by (topology, client config, auth spec and challenge ordinals per host, operation multiset).",
+    jobs=[REPLAY, rapid("prop", "TestVerifProp", 48000, 2000000, sq=16, st=16)],
+    technique="property-based testing (rapid): generated multi-host topologies, auth specifications, challenge positions, client configurations and operation lists run "
+              "through the real client against an in-process model of registries, token endpoints, storage/upload/external hosts that owns the transport; taint-scan "
+              "oracle over every received request (URL, headers, body; raw, base64, URL- and form-encoded readings) and over the trace-level log",
+    level_text="Generated-input search over host topologies, authentication schemes, challenge sequences, client configuration forms and client operations. Every request "
+               "received by any model host is searched for every secret (user, password, identity token, base64 Basic value, issued bearer and refresh tokens) of every "
+               "other host; a secret of registry j may only reach j itself and a token endpoint that j itself had named in a challenge before; issued bearer tokens only "
+               "j; a request that carries any secret to a host the client configured for TLS must have been sent with scheme https; the trace-level log must contain no "
+               "secret other than user names. Exploration, not proof.",
+    level_note="Trusted: regmodel plus the auth layer of harness/c11 (Host.Intercept) as the model of registries and token services; the in-memory transport (no sockets, no "
+               "TLS: 'clear text' is judged from the URL scheme the client chose). Known findings are attributed by (role of the receiving host, who challenged / named "
+               "the realm before, request class) and any leak outside those attributions is a fresh violation. Not asserted: which registry a rejected docker key "
+               "('host/repo') would have been meant for (its decoy credentials may reach the host named in the key, nobody else); user names in the log (logged on "
+               "purpose); the scheme of requests to hosts without client configuration (token endpoints on separate hosts, storage, upload and external hosts); "
+               "credential helpers (would execute external programs).",
+    assumptions=["a request logged by the model for a URL without host or with a scheme other than http/https is not a transmission (a real transport refuses it)",
+                 "the docker config file sets TLS by key spelling (http:// = disabled, else enabled), as config/docker.go does",
+                 "in-memory transport (no TLS, no sockets); request interleavings of ImageCopy are whatever the scheduler produces"],
 )
